@@ -167,6 +167,10 @@ def _execute(td, view, cfg, ctx, sched):
             prev = state['prev']
             if prev is not None:
                 ctx.check(prev == s, 'step-chain', lambda: f"step {t}: starts in {s} but previous step ended in {prev}")
+                if cfg['learner'] == 'SARSA' and state.get('prev_na') is not None:
+                    # SARSA's rule bootstraps on the action ACTUALLY TAKEN next: the A' of the previous update is this step's action
+                    ctx.check(state['prev_na'] == a, 'fold-step', lambda: f"step {t}: SARSA's previous update bootstrapped on action {state['prev_na']} at state {s}, the action taken there is {a}",
+                              key='fold-step/SARSA/bootstrap-action-not-taken')
             else:
                 ctx.check(view.init.get(s, 0) > 0, 'step-chain', lambda: f"step {t}: episode starts in {s}, not in the initial support")
             state['prev'] = ns
@@ -208,6 +212,7 @@ def _execute(td, view, cfg, ctx, sched):
                 elif cfg['learner'] == 'SARSA':
                     na = aid[lv['na']]
                     ctx.check(na in view.A[ns], 'step-real', lambda: f"step {t}: next action {na} unavailable in {ns}")
+                    state['prev_na'] = None if ns in view.absorbing else na
                     tgt = r + g * qn[na]
                 else:
                     pi = softmax_eps(qn)
@@ -237,6 +242,7 @@ def _execute(td, view, cfg, ctx, sched):
         def end_of_episode(self, lv):
             if not state['main']:
                 return
+            state['prev_na'] = None
             if state['prev'] is None:
                 ctx.probe('episode_from_absorbing_start')
             else:
